@@ -178,8 +178,20 @@ impl<SystemType : System> SysCache<SystemType>
             {
                 match system.rename(&cache_path, &target_path)
                 {
-                    Err(error) => RestoreResult::SystemError(error),
-                    Ok(()) => RestoreResult::Done
+                    Ok(()) => RestoreResult::Done,
+                    Err(error) =>
+                    {
+                        /*  Another thread may have taken the entry between the check above
+                            and the rename.  In that case the file is simply not there. */
+                        if system.is_file(&cache_path)
+                        {
+                            RestoreResult::SystemError(error)
+                        }
+                        else
+                        {
+                            RestoreResult::NotThere
+                        }
+                    }
                 }
             }
             else
